@@ -23,7 +23,7 @@ ANCHORS = [("leuvenmapmatching/map/base.py", "BaseMap.use_latlon"),
            ("leuvenmapmatching/util/dist_latlon.py", "distance_point_to_segment"),
            ("leuvenmapmatching/util/dist_latlon.py", "distance")]
 FLOORS = {"pairs_compared": 1200, "complete_matches_compared": 900, "family:simple": 300, "family:simple_nodes": 300, "family:distance": 300,
-          "southern_hemisphere": 300, "high_latitude": 150, "straddles_antimeridian": 60, "linked_map_pairs": 600, "linked_map_pairs_with_links": 200}
+          "southern_hemisphere": 300, "high_latitude": 150, "straddles_antimeridian": 60, "linked_map_pairs": 600, "sqlite_pairs": 500, "linked_map_pairs_with_links": 200}
 ASSUMPTIONS = ["index must be equal; best log-probability within 1e-2*max(1,|x|) (the 0.1 m noise floor of the cross-/along-track formulation, "
                "propagated through d*delta/sigma^2 per step); finer errors of the geodesic primitives are C14's business",
                "node-and-edge mode decides 'edge or end node' by the relative position with an absolute 1e-8 tolerance: cases in which an "
@@ -154,6 +154,9 @@ def gen_case(rng, i, tier):
         # "any longitude": the map straddles the antimeridian (node longitudes on both sides of +-180)
         case["center"] = [lat, rng.choice([-180.0, 180.0, 179.9995, -179.9992, rng.uniform(179.997, 180.0), -rng.uniform(179.997, 180.0)])]
         case["antimeridian"] = True
+    if build.sqlite_ok(case["map"]) and rng.random() < 0.3:
+        # both siblings on SqliteMap (all three state families: coordinates and candidates come out of the database)
+        case["sqlite"] = True
     return case
 
 
@@ -176,6 +179,13 @@ def run(case):
 def check_case(ctx, case):
     if case.get("cls") == "parallel_links":
         return check_links(ctx, case)
+    if case.get("sqlite"):
+        ctx.count("sqlite_pairs")
+    with build.sqlite_backend(bool(case.get("sqlite")), ctx.scratch):
+        return _check_case(ctx, case)
+
+
+def _check_case(ctx, case):
     fam = case["cfg"]["family"]
     try:
         mt0, c0 = run(case)
@@ -242,7 +252,7 @@ def check_case(ctx, case):
         avg = sum(len([x for x in col.values(0) if not x.stop]) for col in mt0.lattice.values()) / max(1, len(mt0.lattice))
         if avg >= 2:
             ctx.nontriv(case)
-    wit = {"planar": {"map": case["map"], "trace": case["trace"], "cfg": case["cfg"]}, "latlon": pc, "center": case["center"]}
+    wit = {"planar": {"map": case["map"], "trace": case["trace"], "cfg": case["cfg"]}, "latlon": pc, "center": case["center"], "sqlite": bool(case.get("sqlite"))}
     order = "second-order" if case["cfg"]["agb"] else "first-order"
     if c0["empty"] != c1["empty"] or c0["idx"] != c1["idx"]:
         ctx.violation(f"C15:index-differs:{fam}:{order}", wit, f"planar idx {c0['idx']} empty {c0['empty']}; lat-lon idx {c1['idx']} empty {c1['empty']}")
@@ -266,6 +276,8 @@ def replay_case(ctx, wit):
     if "planar" in wit:
         case = dict(wit["planar"])
         case["center"] = wit["center"]
+        if wit.get("sqlite"):
+            case["sqlite"] = True
         case.setdefault("cls", wit["planar"].get("cls"))
         return check_case(ctx, case)
     return check_case(ctx, wit)
